@@ -250,6 +250,24 @@ func (fc *fnCtx) goStmt(st *State, fr *frame, ins *ssa.Go) {
 	} else {
 		spec := fc.e.effective(fs, k)
 		lets := map[string]Val{}
+		// a spawned method: its receiver is the first operand
+		var recv *Val
+		if _, isClosure := c.Value.(*ssa.MakeClosure); !isClosure && callee.Signature.Recv() != nil && len(args) > 0 {
+			r := args[0]
+			recv = &r
+			args = args[1:]
+			// the type invariant the method assumes of its receiver must hold when the goroutine is started
+			if ts, named := fc.e.typeSpecOf(originOf(callee)); ts != nil && named != nil && !spec.flags["noinv"] {
+				sc := fc.specCtxFor(st, fr)
+				n := sc.withVar("this", Val{T: r.T, S: r.S, GT: ptrIfStruct(named)})
+				for _, inv := range ts.Invariants {
+					name := fc.oblName(fr, fmt.Sprintf("pre@%s.%s.inv%d", site, shortKey(spec.key), inv.Ord))
+					if g := fc.evalBoolClause(n, inv, name); g != "" {
+						fc.emit(st, name, "pre", inv.Text, clauseLoc(inv), g, inv.Tags)
+					}
+				}
+			}
+		}
 		eval := func(c effClause, want Sort, check bool) (v Val, ok bool) {
 			defer func() {
 				if r := recover(); r != nil {
@@ -261,7 +279,7 @@ func (fc *fnCtx) goStmt(st *State, fr *frame, ins *ssa.Go) {
 					panic(r)
 				}
 			}()
-			sc := fc.calleeCtx(st, spec, c.params, nil, args, nil)
+			sc := fc.calleeCtx(st, spec, c.params, recv, args, nil)
 			sc.old, sc.oldNow = st.heap, st.now
 			for n, lv := range lets {
 				sc.vars[n] = lv
